@@ -1045,4 +1045,517 @@ theorem init_inv : Inv init := by
   refine ⟨fun x => ?_, fun _ => rfl⟩
   simp [cnt_def, init, lids]
 
+/-! ### adding: rejected when an id is in use, accepted when all ids are free -/
+
+/-- the ids an object brings along -/
+def objIds : Obj → List Nat
+  | .obstacle _ k => [k]
+  | .lanelet l => [l.id]
+  | .sign k => [k]
+  | .light k => [k]
+  | .inter i => interIds i
+  | .network n => netIds n
+  | .invalid => []
+
+/-- the object is part of the scenario -/
+def Contains (s : St) : Obj → Prop
+  | .obstacle .stat k => k ∈ s.stat
+  | .obstacle .dyn k => k ∈ s.dyn
+  | .obstacle .env k => k ∈ s.env
+  | .obstacle .phan k => k ∈ s.phan
+  | .lanelet l => l.id ∈ lids s.net
+  | .sign k => k ∈ s.net.signs
+  | .light k => k ∈ s.net.lights
+  | .inter i => i ∈ s.net.inters
+  | .network n => s.net = n
+  | .invalid => False
+
+theorem fresh_single (s : St) (k : Nat) : Fresh s [k] ↔ k ∉ s.idSet := by simp [Fresh]
+
+theorem addObj_used (s : St) (o : Obj) (refs : List Nat) (h : Inv s) (hu : ¬ Fresh s (objIds o)) :
+    addObj s o refs = (s, .err .value) := by
+  cases o with
+  | obstacle r k =>
+    have hk : k ∈ s.idSet := by simpa [objIds, fresh_single] using hu
+    show onMarked (mark s k) _ = _; rw [mark_used s k h hk]; rfl
+  | lanelet l =>
+    have hk : l.id ∈ s.idSet := by simpa [objIds, fresh_single] using hu
+    show onMarked (mark s l.id) _ = _; rw [mark_used s _ h hk]; rfl
+  | sign k =>
+    have hk : k ∈ s.idSet := by simpa [objIds, fresh_single] using hu
+    show onMarked (mark s k) _ = _; rw [mark_used s k h hk]; rfl
+  | light k =>
+    have hk : k ∈ s.idSet := by simpa [objIds, fresh_single] using hu
+    show onMarked (mark s k) _ = _; rw [mark_used s k h hk]; rfl
+  | inter i =>
+    have hu' : ¬ Fresh s (interIds i) := hu
+    show onMarked (markMany s (interIds i)) _ = _; rw [markMany_used s _ hu']; rfl
+  | network n =>
+    have hu' : ¬ Fresh s (netIds n) := hu
+    show onMarked (markMany s (netIds n)) _ = _; rw [markMany_used s _ hu']; rfl
+  | invalid => rfl
+
+theorem addObj_fresh (s : St) (o : Obj) (refs : List Nat) (h : Inv s) (hv : o ≠ .invalid) (hf : Fresh s (objIds o)) :
+    (addObj s o refs).2 = .ok ∧ Contains (addObj s o refs).1 o := by
+  cases o with
+  | obstacle r k =>
+    have hk : k ∉ s.idSet := by simpa [objIds, fresh_single] using hf
+    show (onMarked (mark s k) _).2 = _ ∧ Contains (onMarked (mark s k) _).1 _
+    rw [mark_eq]; simp only [hk, if_false, onMarked_none]
+    cases r <;> simp [Contains, putObstacle, dictSet] <;> split <;> simp_all
+  | lanelet l =>
+    have hk : l.id ∉ s.idSet := by simpa [objIds, fresh_single] using hf
+    show (onMarked (mark s l.id) _).2 = _ ∧ Contains (onMarked (mark s l.id) _).1 _
+    rw [mark_eq]; simp only [hk, if_false, onMarked_none]
+    simp only [Contains, addLanelet_lids, dictSet, true_and]; split <;> simp_all
+  | sign k =>
+    have hk : k ∉ s.idSet := by simpa [objIds, fresh_single] using hf
+    show (onMarked (mark s k) _).2 = _ ∧ Contains (onMarked (mark s k) _).1 _
+    rw [mark_eq]; simp only [hk, if_false, onMarked_none]
+    simp only [Contains, addSign_signs, dictSet, true_and]; split <;> simp_all
+  | light k =>
+    have hk : k ∉ s.idSet := by simpa [objIds, fresh_single] using hf
+    show (onMarked (mark s k) _).2 = _ ∧ Contains (onMarked (mark s k) _).1 _
+    rw [mark_eq]; simp only [hk, if_false, onMarked_none]
+    simp only [Contains, addLight_lights, dictSet, true_and]; split <;> simp_all
+  | inter i =>
+    show (onMarked (markMany s (interIds i)) _).2 = _ ∧ Contains (onMarked (markMany s (interIds i)) _).1 _
+    have hf' : Fresh s (interIds i) := hf
+    rw [markMany_fresh s _ hf', onMarked_none]
+    have habs : i.id ∉ s.net.inters.map (·.id) := h.inter_id_absent (hf'.2 _ (by simp [interIds]))
+    simp [Contains, addInter_inters _ _ habs]
+  | network n =>
+    show (onMarked (markMany s (netIds n)) _).2 = _ ∧ Contains (onMarked (markMany s (netIds n)) _).1 _
+    have hf' : Fresh s (netIds n) := hf
+    rw [markMany_fresh s _ hf', onMarked_none]
+    simp [Contains]
+  | invalid => exact absurd rfl hv
+
+/-- `Fresh` read on the contained objects instead of the id set (equivalent under the invariant) -/
+theorem fresh_iff_allIds (s : St) (h : Inv s) (ks : List Nat) :
+    Fresh s ks ↔ ks.Nodup ∧ ∀ k ∈ ks, k ∉ allIds s := by
+  have := ((inv_iff s).mp h).1.2
+  unfold Fresh
+  constructor <;> (rintro ⟨h1, h2⟩; exact ⟨h1, fun k hk => by have := this k; have := h2 k hk; simp_all⟩)
+
+/-! ### generate_object_id -/
+
+theorem le_listMax : ∀ (l : List Nat) (x : Nat), x ∈ l → x ≤ listMax l
+  | [], _, h => by simp at h
+  | a :: as, x, h => by
+    rcases List.mem_cons.mp h with e | e
+    · subst e; simp [listMax]; omega
+    · have := le_listMax as x e; simp [listMax]; omega
+
+/-- value of the id counter (`None` counts as 0) -/
+def cv (s : St) : Nat := s.counter.getD 0
+
+theorem genId_spec (s : St) : ∃ n, genId s = ({ s with counter := some n }, .id n) ∧ cv s < n ∧ ∀ x ∈ s.idSet, x < n := by
+  unfold genId cv
+  refine ⟨_, rfl, ?_, fun x hx => ?_⟩
+  · split <;> omega
+  · have := le_listMax _ x hx
+    split
+    · rename_i he; simp [List.isEmpty_iff] at he; simp [he] at hx
+    · omega
+
+/-! the counter never decreases; only `generate_object_id` returns an id -/
+
+def Out.notId : Out → Prop
+  | .id _ => False
+  | _ => True
+
+/-- `t` continues `s`: the counter did not decrease -/
+def Le (s t : St) : Prop := cv s ≤ cv t
+theorem Le.refl (s : St) : Le s s := Nat.le_refl _
+theorem Le.trans {a b c : St} (h1 : Le a b) (h2 : Le b c) : Le a c := Nat.le_trans h1 h2
+theorem Le.of_eq {s t : St} (h : t.counter = s.counter) : Le s t := by unfold Le cv; rw [h]; exact Nat.le_refl _
+
+theorem andThen_le {s : St} {r : St × Out} {g : St → St × Out} (h1 : Le s r.1 ∧ r.2.notId)
+    (h2 : ∀ s1, Le s1 (g s1).1 ∧ (g s1).2.notId) : Le s (andThen r g).1 ∧ (andThen r g).2.notId := by
+  obtain ⟨s1, o⟩ := r
+  cases o with
+  | ok => exact ⟨h1.1.trans (h2 s1).1, (h2 s1).2⟩
+  | err e => exact h1
+  | id n => exact h1
+
+theorem forEach_le {α : Type} (f : St → α → St × Out) (hf : ∀ s a, Le s (f s a).1 ∧ (f s a).2.notId) :
+    ∀ (as : List α) (s : St), Le s (forEach f s as).1 ∧ (forEach f s as).2.notId
+  | [], s => ⟨Le.refl s, trivial⟩
+  | a :: as, s => andThen_le (hf s a) (fun s1 => forEach_le f hf as s1)
+
+theorem release_le (s : St) (k : Nat) : Le s (release s k).1 ∧ (release s k).2.notId := by
+  refine ⟨Le.of_eq (by simp), ?_⟩
+  rw [release_out]; split <;> trivial
+
+theorem onMarked_le {s : St} {r : St × Option Err} {g : St → St} (h1 : Le s r.1) (h2 : ∀ t, (g t).counter = t.counter) :
+    Le s (onMarked r g).1 ∧ (onMarked r g).2.notId := by
+  obtain ⟨s1, o⟩ := r
+  cases o with
+  | none => exact ⟨h1.trans (Le.of_eq (h2 s1)), trivial⟩
+  | some e => exact ⟨h1, trivial⟩
+
+theorem mark_le (s : St) (k : Nat) : Le s (mark s k).1 := by
+  unfold Le cv; rw [mark_counter]; cases s.counter <;> simp
+
+theorem markMany_le (s : St) (ks : List Nat) : Le s (markMany s ks).1 := by
+  unfold markMany
+  split
+  · unfold Le cv; cases s.counter <;> simp
+  · exact Le.refl s
+
+theorem removeSign_le (s : St) (k : Nat) : Le s (removeSign s k).1 ∧ (removeSign s k).2.notId := by
+  have := release_le { s with net := s.net.removeSign k } k
+  exact ⟨Le.of_eq (by simp [removeSign]), this.2⟩
+theorem removeLight_le (s : St) (k : Nat) : Le s (removeLight s k).1 ∧ (removeLight s k).2.notId := by
+  have := release_le { s with net := s.net.removeLight k } k
+  exact ⟨Le.of_eq (by simp [removeLight]), this.2⟩
+theorem dropLanelet_le (s : St) (l : Lanelet) : Le s (dropLanelet s l).1 ∧ (dropLanelet s l).2.notId := by
+  have := release_le { s with net := s.net.removeLanelet l.id } l.id
+  exact ⟨Le.of_eq (by simp [dropLanelet]), this.2⟩
+theorem removeInter_le (s : St) (i : Inter) : Le s (removeInter s i).1 ∧ (removeInter s i).2.notId := by
+  refine ⟨Le.of_eq (removeInter_proj s i).2.2.2.2.2.1, ?_⟩
+  exact (andThen_le (s := { s with net := s.net.removeInter i.id }) (release_le _ _)
+    (fun s1 => forEach_le release release_le i.incs s1)).2
+theorem removeObstacle_le (s : St) (k : Nat) : Le s (removeObstacle s k).1 ∧ (removeObstacle s k).2.notId := by
+  unfold removeObstacle
+  split
+  · exact ⟨Le.of_eq (by simp), (release_le _ _).2⟩
+  · split
+    · exact ⟨Le.of_eq (by simp), (release_le _ _).2⟩
+    · split
+      · exact ⟨Le.of_eq (by simp), (release_le _ _).2⟩
+      · split
+        · exact ⟨Le.of_eq (by simp), (release_le _ _).2⟩
+        · exact ⟨Le.refl s, trivial⟩
+
+theorem removeLanelets_le (s : St) (ls : List Lanelet) (refd : Bool) :
+    Le s (removeLanelets s ls refd).1 ∧ (removeLanelets s ls refd).2.notId := by
+  unfold removeLanelets
+  apply andThen_le
+  · split
+    · exact andThen_le (forEach_le _ removeSign_le _ _) (fun s1 => forEach_le _ removeLight_le _ _)
+    · exact ⟨Le.refl s, trivial⟩
+  · exact fun s1 => forEach_le _ dropLanelet_le _ _
+
+theorem eraseLanelet_le (s : St) (k : Nat) : Le s (eraseLanelet s k).1 ∧ (eraseLanelet s k).2.notId := by
+  unfold eraseLanelet; split
+  · exact removeLanelets_le _ _ _
+  · exact release_le _ _
+
+theorem erase_le (s : St) : Le s (erase s).1 ∧ (erase s).2.notId := by
+  unfold erase
+  exact andThen_le (forEach_le _ eraseLanelet_le _ _) fun s1 =>
+    andThen_le (forEach_le _ removeSign_le _ _) fun s2 =>
+    andThen_le (forEach_le _ removeLight_le _ _) fun s3 =>
+    andThen_le (forEach_le _ removeInter_le _ _) fun s4 => ⟨Le.of_eq rfl, trivial⟩
+
+theorem addNetwork_le (s : St) (n : Net) : Le s (addNetwork s n).1 ∧ (addNetwork s n).2.notId :=
+  onMarked_le (markMany_le s _) (fun _ => rfl)
+
+theorem addObj_le (s : St) (o : Obj) (refs : List Nat) : Le s (addObj s o refs).1 ∧ (addObj s o refs).2.notId := by
+  cases o with
+  | obstacle r k => exact onMarked_le (mark_le s k) (fun t => by cases r <;> rfl)
+  | lanelet l => exact onMarked_le (mark_le s _) (fun _ => rfl)
+  | sign k => exact onMarked_le (mark_le s _) (fun _ => rfl)
+  | light k => exact onMarked_le (mark_le s _) (fun _ => rfl)
+  | inter i => exact onMarked_le (markMany_le s _) (fun _ => rfl)
+  | network n => exact addNetwork_le s n
+  | invalid => exact ⟨Le.refl s, trivial⟩
+
+/-- Every step keeps the counter from decreasing, and a step that returns an id returns the new counter value,
+    which is larger than the old one and than every reserved id. -/
+theorem step_counter (s : St) (op : Op) :
+    Le s (step s op).1 ∧ ∀ n, (step s op).2 = .id n → cv s < n ∧ cv (step s op).1 = n ∧ ∀ x ∈ s.idSet, x < n := by
+  have notId : ∀ {o : Out}, o.notId → ∀ n, o = .id n → cv s < n ∧ cv (step s op).1 = n ∧ ∀ x ∈ s.idSet, x < n := by
+    intro o ho n e; subst e; exact absurd ho (by simp [Out.notId])
+  cases op with
+  | add o refs => exact ⟨(addObj_le s o refs).1, notId (addObj_le s o refs).2⟩
+  | addList os refs =>
+    have := forEach_le (fun s o => addObj s o refs) (fun s o => addObj_le s o refs) os s
+    exact ⟨this.1, notId this.2⟩
+  | removeObstacle k => exact ⟨(removeObstacle_le s k).1, notId (removeObstacle_le s k).2⟩
+  | removeObstacles ks =>
+    have := forEach_le _ removeObstacle_le ks s
+    exact ⟨this.1, notId this.2⟩
+  | removeLanelets ls refd => exact ⟨(removeLanelets_le s ls refd).1, notId (removeLanelets_le s ls refd).2⟩
+  | removeSign k => exact ⟨(removeSign_le s k).1, notId (removeSign_le s k).2⟩
+  | removeSigns ks =>
+    have := forEach_le _ removeSign_le ks s
+    exact ⟨this.1, notId this.2⟩
+  | removeLight k => exact ⟨(removeLight_le s k).1, notId (removeLight_le s k).2⟩
+  | removeLights ks =>
+    have := forEach_le _ removeLight_le ks s
+    exact ⟨this.1, notId this.2⟩
+  | removeInter i => exact ⟨(removeInter_le s i).1, notId (removeInter_le s i).2⟩
+  | removeInters is =>
+    have := forEach_le _ removeInter_le is s
+    exact ⟨this.1, notId this.2⟩
+  | replaceNet n =>
+    have := andThen_le (erase_le s) (fun s1 => addNetwork_le s1 n)
+    exact ⟨this.1, notId this.2⟩
+  | genId =>
+    obtain ⟨n, e, h1, h2⟩ := genId_spec s
+    show Le s (genId s).1 ∧ ∀ m, (genId s).2 = .id m → cv s < m ∧ cv (genId s).1 = m ∧ ∀ x ∈ s.idSet, x < m
+    rw [e]
+    refine ⟨Nat.le_of_lt (by simpa [cv] using h1), fun m hm => ?_⟩
+    have : n = m := by simpa using hm
+    subst this
+    exact ⟨h1, rfl, h2⟩
+
+/-- the ids returned by `generate_object_id` in a history -/
+def genOuts : List Out → List Nat
+  | [] => []
+  | .id n :: os => n :: genOuts os
+  | .ok :: os => genOuts os
+  | .err _ :: os => genOuts os
+
+theorem run_gen_increasing : ∀ (ops : List Op) (s : St),
+    (∀ n ∈ genOuts (run s ops).2, cv s < n) ∧ (genOuts (run s ops).2).Pairwise (· < ·)
+  | [], s => by simp [run, genOuts]
+  | op :: ops, s => by
+    obtain ⟨h1, h2⟩ := step_counter s op
+    obtain ⟨ih1, ih2⟩ := run_gen_increasing ops (step s op).1
+    show (∀ n ∈ genOuts ((step s op).2 :: (run (step s op).1 ops).2), cv s < n) ∧
+      (genOuts ((step s op).2 :: (run (step s op).1 ops).2)).Pairwise (· < ·)
+    cases ho : (step s op).2 with
+    | ok => exact ⟨fun n hn => Nat.lt_of_le_of_lt h1 (ih1 n hn), ih2⟩
+    | err e => exact ⟨fun n hn => Nat.lt_of_le_of_lt h1 (ih1 n hn), ih2⟩
+    | id m =>
+      obtain ⟨g1, g2, _⟩ := h2 m ho
+      simp only [genOuts, List.mem_cons, List.pairwise_cons]
+      refine ⟨fun n hn => ?_, fun n hn => ?_, ih2⟩
+      · rcases hn with e | e
+        · subst e; exact g1
+        · exact Nat.lt_of_le_of_lt h1 (ih1 n e)
+      · have := ih1 n hn; omega
+
+/-! ### removals free the ids -/
+
+theorem removeSign_keeps_free (s : St) (a x : Nat) (h : x ∉ s.idSet) : x ∉ (removeSign s a).1.idSet :=
+  fun hx => h ((removeSign_mem s a x).mp hx).1
+theorem removeLight_keeps_free (s : St) (a x : Nat) (h : x ∉ s.idSet) : x ∉ (removeLight s a).1.idSet :=
+  fun hx => h ((removeLight_mem s a x).mp hx).1
+theorem dropLanelet_keeps_free (s : St) (a : Lanelet) (x : Nat) (h : x ∉ s.idSet) : x ∉ (dropLanelet s a).1.idSet :=
+  fun hx => h ((dropLanelet_mem s a x).mp hx).1
+theorem removeInter_keeps_free (s : St) (a : Inter) (x : Nat) (h : x ∉ s.idSet) : x ∉ (removeInter s a).1.idSet :=
+  fun hx => h ((removeInter_proj s a).2.2.2.2.2.2 x hx)
+theorem release_keeps_free (s : St) (a x : Nat) (h : x ∉ s.idSet) : x ∉ (release s a).1.idSet :=
+  fun hx => h ((release_mem s a x).mp hx).1
+
+theorem removeSigns_frees (s s' : St) (ks : List Nat) (h : removeSigns s ks = (s', .ok)) : ∀ k ∈ ks, k ∉ s'.idSet :=
+  forEach_gone removeSign (fun t k => k ∉ t.idSet)
+    (fun t k t' ht => by rw [← fst_of_eq ht, removeSign_mem]; simp)
+    (fun t a b hb => removeSign_keeps_free t a b hb) ks s s' h
+
+theorem removeLights_frees (s s' : St) (ks : List Nat) (h : removeLights s ks = (s', .ok)) : ∀ k ∈ ks, k ∉ s'.idSet :=
+  forEach_gone removeLight (fun t k => k ∉ t.idSet)
+    (fun t k t' ht => by rw [← fst_of_eq ht, removeLight_mem]; simp)
+    (fun t a b hb => removeLight_keeps_free t a b hb) ks s s' h
+
+theorem dropLanelets_frees (s s' : St) (ls : List Lanelet) (h : forEach dropLanelet s ls = (s', .ok)) :
+    ∀ l ∈ ls, l.id ∉ s'.idSet :=
+  forEach_gone dropLanelet (fun t l => l.id ∉ t.idSet)
+    (fun t k t' ht => by rw [← fst_of_eq ht, dropLanelet_mem]; simp)
+    (fun t a _ hb => dropLanelet_keeps_free t a _ hb) ls s s' h
+
+theorem releases_frees (s s' : St) (ks : List Nat) (h : forEach release s ks = (s', .ok)) : ∀ k ∈ ks, k ∉ s'.idSet :=
+  forEach_gone release (fun t k => k ∉ t.idSet)
+    (fun t k t' ht => by rw [← fst_of_eq ht, release_mem]; simp)
+    (fun t a b hb => release_keeps_free t a b hb) ks s s' h
+
+theorem removeInter_frees (s s' : St) (i : Inter) (h : removeInter s i = (s', .ok)) : ∀ x ∈ interIds i, x ∉ s'.idSet := by
+  unfold removeInter at h
+  obtain ⟨s1, h1, h2⟩ := andThen_ok h
+  intro x hx
+  rcases List.mem_cons.mp hx with e | e
+  · subst e
+    have : i.id ∉ s1.idSet := by rw [← fst_of_eq h1, release_mem]; simp
+    have := forEach_mono release (fun t => i.id ∉ t.idSet) (fun t a ht => release_keeps_free t a _ ht) i.incs s1 this
+    rw [h2] at this; exact this
+  · exact releases_frees s1 s' i.incs h2 x e
+
+theorem removeInters_frees (s s' : St) (is : List Inter) (h : removeInters s is = (s', .ok)) :
+    ∀ i ∈ is, ∀ x ∈ interIds i, x ∉ s'.idSet :=
+  forEach_gone removeInter (fun t i => ∀ x ∈ interIds i, x ∉ t.idSet)
+    (fun t i t' ht => removeInter_frees t t' i ht)
+    (fun t a b hb x hx => removeInter_keeps_free t a x (hb x hx)) is s s' h
+
+theorem removeObstacle_frees (s : St) (k : Nat) (h : Inv s) (hk : k ∈ obstIds s) :
+    (removeObstacle s k).2 = .ok ∧ k ∉ (removeObstacle s k).1.idSet := by
+  have hin : k ∈ s.idSet := h.mem_of_pos (by
+    rw [cnt_split]; have := List.count_pos_iff.mpr hk; omega)
+  have rel : ∀ t : St, t.idSet = s.idSet → (release t k).2 = .ok ∧ k ∉ (release t k).1.idSet := fun t ht => by
+    rw [release_out, release_mem, ht]; simp [hin]
+  unfold removeObstacle
+  simp only [obstIds, List.mem_append] at hk
+  split
+  · exact rel _ rfl
+  · split
+    · exact rel _ rfl
+    · split
+      · exact rel _ rfl
+      · split
+        · exact rel _ rfl
+        · simp_all
+
+theorem removeLanelets_frees (s s' : St) (ls : List Lanelet) (refd : Bool) (h : removeLanelets s ls refd = (s', .ok)) :
+    (∀ l ∈ ls, l.id ∉ s'.idSet) ∧
+    (refd = true → (∀ k ∈ hangingSigns s ls, k ∉ s'.idSet) ∧ (∀ k ∈ hangingLights s ls, k ∉ s'.idSet)) := by
+  unfold removeLanelets at h
+  obtain ⟨s1, h1, h2⟩ := andThen_ok h
+  refine ⟨dropLanelets_frees s1 s' ls h2, fun hr => ?_⟩
+  simp only [hr, if_true] at h1
+  obtain ⟨s0, g1, g2⟩ := andThen_ok h1
+  have keep : ∀ x, x ∉ s1.idSet → x ∉ s'.idSet := fun x hx => by
+    have := forEach_mono dropLanelet (fun t => x ∉ t.idSet) (fun t a ht => dropLanelet_keeps_free t a x ht) ls s1 hx
+    rw [h2] at this; exact this
+  refine ⟨fun k hk => keep k ?_, fun k hk => keep k (removeLights_frees s0 s1 _ g2 k hk)⟩
+  have := removeSigns_frees s s0 _ g1 k hk
+  have := forEach_mono removeLight (fun t => k ∉ t.idSet) (fun t a ht => removeLight_keeps_free t a k ht)
+    (hangingLights s ls) s0 this
+  unfold removeLights at g2
+  rw [g2] at this; exact this
+
+/-! ### replacing the network frees the ids of the old one -/
+
+def SameObst (s t : St) : Prop := t.stat = s.stat ∧ t.dyn = s.dyn ∧ t.env = s.env ∧ t.phan = s.phan
+theorem SameObst.refl (s : St) : SameObst s s := ⟨rfl, rfl, rfl, rfl⟩
+theorem SameObst.trans {a b c : St} (h1 : SameObst a b) (h2 : SameObst b c) : SameObst a c :=
+  ⟨h2.1.trans h1.1, h2.2.1.trans h1.2.1, h2.2.2.1.trans h1.2.2.1, h2.2.2.2.trans h1.2.2.2⟩
+
+theorem forEach_obst {α : Type} (f : St → α → St × Out) (hf : ∀ s a, SameObst s (f s a).1) :
+    ∀ (as : List α) (s : St), SameObst s (forEach f s as).1
+  | [], s => SameObst.refl s
+  | a :: as, s => by
+    show SameObst s (andThen (f s a) (fun s1 => forEach f s1 as)).1
+    exact andThen_prop (P := fun t => SameObst s t) (hf s a) (fun s1 h1 => h1.trans (forEach_obst f hf as s1))
+
+theorem removeSign_obst (s : St) (k : Nat) : SameObst s (removeSign s k).1 := by simp [SameObst, removeSign]
+theorem removeLight_obst (s : St) (k : Nat) : SameObst s (removeLight s k).1 := by simp [SameObst, removeLight]
+theorem dropLanelet_obst (s : St) (l : Lanelet) : SameObst s (dropLanelet s l).1 := by simp [SameObst, dropLanelet]
+theorem removeInter_obst (s : St) (i : Inter) : SameObst s (removeInter s i).1 := by
+  obtain ⟨_, h2, h3, h4, h5, _⟩ := removeInter_proj s i
+  exact ⟨h2, h3, h4, h5⟩
+
+theorem removeLanelets_obst (s : St) (ls : List Lanelet) (refd : Bool) : SameObst s (removeLanelets s ls refd).1 := by
+  unfold removeLanelets
+  apply andThen_prop (P := fun t => SameObst s t)
+  · split
+    · apply andThen_prop (P := fun t => SameObst s t)
+      · exact forEach_obst _ removeSign_obst _ _
+      · intro s1 g1; exact g1.trans (forEach_obst _ removeLight_obst _ _)
+    · exact SameObst.refl s
+  · intro s1 g1; exact g1.trans (forEach_obst _ dropLanelet_obst _ _)
+
+theorem eraseLanelet_obst (s : St) (k : Nat) : SameObst s (eraseLanelet s k).1 := by
+  unfold eraseLanelet; split
+  · exact removeLanelets_obst _ _ _
+  · simp [SameObst]
+
+theorem erase_obst (s : St) : SameObst s (erase s).1 := by
+  unfold erase
+  apply andThen_prop (P := fun t => SameObst s t) (forEach_obst _ eraseLanelet_obst _ _)
+  intro s1 g1
+  apply andThen_prop (P := fun t => SameObst s t) (g1.trans (forEach_obst _ removeSign_obst _ _))
+  intro s2 g2
+  apply andThen_prop (P := fun t => SameObst s t) (g2.trans (forEach_obst _ removeLight_obst _ _))
+  intro s3 g3
+  apply andThen_prop (P := fun t => SameObst s t) (g3.trans (forEach_obst _ removeInter_obst _ _))
+  intro s4 g4
+  exact g4
+
+theorem erase_ok_net (s s' : St) (h : erase s = (s', .ok)) : s'.net = {} := by
+  unfold erase at h
+  obtain ⟨s1, _, h⟩ := andThen_ok h
+  obtain ⟨s2, _, h⟩ := andThen_ok h
+  obtain ⟨s3, _, h⟩ := andThen_ok h
+  obtain ⟨s4, _, h⟩ := andThen_ok h
+  rw [← fst_of_eq h]
+
+theorem erase_frees (s s' : St) (hi : Inv s) (h : erase s = (s', .ok)) : ∀ x ∈ netIds s.net, x ∉ s'.idSet := by
+  intro x hx hin
+  have hi' : Inv s' := fst_of_eq h ▸ erase_inv s hi
+  have ho : SameObst s s' := fst_of_eq h ▸ erase_obst s
+  have hn := erase_ok_net s s' h
+  have c1 := hi'.1 x
+  have c0 := hi.le_one x
+  have := List.count_pos_iff.mpr hx
+  rw [cnt_split] at c1 c0
+  simp only [hin, if_true, hn] at c1
+  have e : obstIds s' = obstIds s := by unfold obstIds; rw [ho.1, ho.2.1, ho.2.2.1, ho.2.2.2]
+  rw [e] at c1
+  simp [netIds] at c1
+  omega
+
+theorem replaceNet_frees (s s' : St) (n : Net) (hi : Inv s) (h : replaceNet s n = (s', .ok)) :
+    ∀ x ∈ netIds s.net, x ∉ netIds n → x ∉ s'.idSet := by
+  unfold replaceNet at h
+  obtain ⟨s1, h1, h2⟩ := andThen_ok h
+  intro x hx hn hin
+  have hfree := erase_frees s s1 hi h1 x hx
+  unfold addNetwork at h2
+  by_cases hf : Fresh s1 (netIds n)
+  · rw [markMany_fresh s1 _ hf, onMarked_none] at h2
+    rw [← fst_of_eq h2] at hin
+    simp only [List.mem_filter, List.mem_append, List.mem_reverse] at hin
+    rcases hin.1 with e | e
+    · exact hn e
+    · exact hfree e
+  · rw [markMany_used s1 _ hf] at h2
+    simp [onMarked] at h2
+
+/-! ### small facts used by the property file -/
+
+theorem Inv.interIds_nodup {s : St} (h : Inv s) {i : Inter} (hi : i ∈ s.net.inters) : (interIds i).Nodup :=
+  List.nodup_iff_count.mpr fun x =>
+    Nat.le_trans (Nat.le_trans (count_le_flatMap_of_mem _ i hi x) (inters_count_le_cnt s x)) (h.le_one x)
+
+theorem Inv.interIds_mem {s : St} (h : Inv s) {i : Inter} (hi : i ∈ s.net.inters) {x : Nat} (hx : x ∈ interIds i) :
+    x ∈ s.idSet :=
+  h.mem_of_pos (Nat.lt_of_lt_of_le (List.count_pos_iff.mpr hx)
+    (Nat.le_trans (count_le_flatMap_of_mem _ i hi x) (inters_count_le_cnt s x)))
+
+/-- removing a contained intersection (single form) does not raise -/
+theorem removeInter_ok (s : St) (i : Inter) (h : Inv s) (hi : i ∈ s.net.inters) : (removeInter s i).2 = .ok := by
+  have hnod' := List.nodup_cons.mp (h.interIds_nodup hi)
+  have hid : i.id ∈ s.idSet := h.interIds_mem hi (by simp [interIds])
+  have hrel : release { s with net := s.net.removeInter i.id } i.id
+      = ((release { s with net := s.net.removeInter i.id } i.id).1, .ok) := by
+    have := release_out { s with net := s.net.removeInter i.id } i.id
+    simp only [hid, if_true] at this
+    exact Prod.ext rfl this
+  have hok := forEachRelease_ok i.incs (release { s with net := s.net.removeInter i.id } i.id).1 hnod'.2
+    (fun k hk => by
+      rw [release_mem]
+      exact ⟨h.interIds_mem hi (by simp [interIds, hk]), fun e => hnod'.1 (e ▸ hk)⟩)
+  unfold removeInter; rw [hrel]; exact hok.1
+
+theorem Inv.mem_of_contained {s : St} (h : Inv s) {x : Nat} (hx : x ∈ allIds s) : x ∈ s.idSet :=
+  (((inv_iff s).mp h).1.2 x).mpr hx
+
+theorem removeSign_ok (s : St) (k : Nat) (h : Inv s) (hk : k ∈ s.net.signs) : (removeSign s k).2 = .ok := by
+  have : k ∈ s.idSet := h.mem_of_contained (by simp [allIds, netIds, hk])
+  simp [removeSign, release_out, this]
+
+theorem removeLight_ok (s : St) (k : Nat) (h : Inv s) (hk : k ∈ s.net.lights) : (removeLight s k).2 = .ok := by
+  have : k ∈ s.idSet := h.mem_of_contained (by simp [allIds, netIds, hk])
+  simp [removeLight, release_out, this]
+
+theorem add_ok_of_free (s : St) (o : Obj) (refs : List Nat) (h : Inv s) (hv : o ≠ .invalid) (hn : (objIds o).Nodup)
+    (hf : ∀ x ∈ objIds o, x ∉ s.idSet) : (addObj s o refs).2 = .ok :=
+  (addObj_fresh s o refs h hv ⟨hn, hf⟩).1
+
+/-! decidability, for the concrete examples -/
+instance (s : St) (k : Nat) : Decidable (QS s k) := by unfold QS; infer_instance
+instance (s : St) (k : Nat) : Decidable (QL s k) := by unfold QL; infer_instance
+instance (s : St) (k : Nat) : Decidable (QLa s k) := by unfold QLa; infer_instance
+instance (s : St) (i : Inter) : Decidable (QI s i) := by unfold QI; infer_instance
+instance (s : St) (op : Op) : Decidable (WfOp s op) := by cases op <;> (unfold WfOp; infer_instance)
+instance : (s : St) → (ops : List Op) → Decidable (WfRun s ops)
+  | _, [] => isTrue trivial
+  | s, op :: ops =>
+    have := instDecidableWfRun (step s op).1 ops
+    by unfold WfRun; infer_instance
+
 end CR.IdPool
